@@ -1,7 +1,9 @@
 // C20 (asynchronous half): the real AsyncFileAppender + LogStreamBuffer under the deterministic scheduler.
 // The appender's .cpp files are compiled into this driver with the atomic shim (see checks/c20.py).
 // stdin lines: <case-id> <sched-seed> <strategy> <page-size> <queue-capacity> <nfiles> <rotate-every> <program>
-//   rotate-every: k>0 rotate the descriptor every k-th check, k<0 slow file (sleeps -k us per check)
+//   rotate-every: 0<k<1000 rotate the descriptor every k-th check, k<0 slow file (sleeps -k us per check),
+//                 k>1000 the file object reports a descriptor only on every (k-999)-th check and -1 (cannot open)
+//                 on the others (1001: every other check, 1999: practically never)
 //   program: threads '|', entries ',' ; entry = <file>:<length>   (thread 0 also initializes and closes)
 // stdout: <case-id> ok steps=.. | files=<per file: entry tags in stream order> | monitors
 #include "shim/prelude.h"
@@ -44,12 +46,14 @@ struct RecFile : public FileObject {
   int current {-1};
   int calls {0};
   int rotate_every {0};
+  int unavailable {0};
   int newfd() { int fd = memfd_create("c20", 0); fds.push_back(dup(fd)); return fd; }
   std::tuple<int, int> check_and_get_file_descriptor() noexcept override {
     calls++;
+    if (rotate_every >= 1000 && calls % (rotate_every - 999) != 0) { unavailable++; return {-1, -1}; }
     if (rotate_every < 0) usleep((useconds_t)(-rotate_every));   // slow file: lets a backlog build up in the queue
     if (current < 0) { current = newfd(); return {current, -1}; }
-    if (rotate_every > 0 && calls % rotate_every == 0) {
+    if (rotate_every > 0 && rotate_every < 1000 && calls % rotate_every == 0) {
       int old = current; current = newfd(); return {current, old};
     }
     return {current, -1};
@@ -153,10 +157,11 @@ int main() {
     }
     size_t total = 0;
     for (auto& th : threads) total += th.size();
-    if (seen.size() != total) once = false;
+    // entries flushed while their file object had no descriptor cannot reach it (only then may one be missing)
+    if (seen.size() != total && rot < 1000) once = false;
     bool pages = alloc.live.empty() && !alloc.double_free && alloc.allocated == alloc.freed;
-    printf("%s ok steps=%llu pre=%llu | files=%s | intact=%d once=%d order=%d pages=%d\n", id, (unsigned long long)r.steps,
-           (unsigned long long)r.preemptions, streams.c_str(), intact, once, order, pages);
+    printf("%s ok steps=%llu pre=%llu lost=%zu | files=%s | intact=%d once=%d order=%d pages=%d\n", id, (unsigned long long)r.steps,
+           (unsigned long long)r.preemptions, total - seen.size(), streams.c_str(), intact, once, order, pages);
     fflush(stdout);
     delete app;
   }
